@@ -6,7 +6,7 @@ From Coq Require Import SpecFloat.
 From BS Require Import Model.Base Model.Regex Model.Num Gen.Unicode Gen.Regexes Gen.Tables.
 
 Inductive expr :=
-| ENum (x : flt)
+| ENum (x : num)
 | EStr (s : str)
 | EVar (name : str)
 | ECall (name : str) (args : list expr)
@@ -127,7 +127,7 @@ with parse_unary (fuel : nat) (text : str) : pres (expr * str) :=
     | MFuel => PFuel
     | MYes e c =>
       match py_float (grp text c 1) with
-      | Some x => POk (ENum x, skipn e text)
+      | Some x => POk (ENum (NFlt x), skipn e text)
       | None => PHost (U "ValueError")
       end
     | MNo =>
@@ -220,7 +220,7 @@ Definition parse_expression (text : str) : eres :=
 (* ---- equality, for the correspondence ---- *)
 Fixpoint expr_eqb (a b : expr) : bool :=
   match a, b with
-  | ENum x, ENum y => sf_eqb x y
+  | ENum x, ENum y => num_eqb x y
   | EStr x, EStr y => str_eqb x y
   | EVar x, EVar y => str_eqb x y
   | ECall n1 a1, ECall n2 a2 =>
